@@ -1,45 +1,649 @@
+// ruwire — correspondence and direct evaluation for C14 (no bytes can crash a node) and C15 (wire fidelity):
+// the REAL decoders, handlers, Blockchain.Update, access-node controllers and a real TCP node against the
+// executable Lean model lean/codec (codecdriver).
+//
+//	--mode fault     the fault matrix: every position of every message schema × fault kinds, ids and hashes
+//	                 recomputed by the real code, (1) to the typed decoders, (2) to the real handlers / Update /
+//	                 access-node routes on a freshly booted validator, followed by admission, a Validate tick,
+//	                 a sync of a fresh peer and the queries
+//	--mode mutate    structure-aware random byte mutations of valid messages (tokenizer boundary)
+//	--mode fidelity  generated values with extreme fields in four spellings: decode → encode, ids, hashes
+//	--mode tcp       real api.NewHost + presentation.NewNode on loopback, real p2p.Neighbor client
+//	--mode witness   the concrete counterexamples of Codec.Props on the real code
+//
+// Cases run in a CHILD process (same binary, --mode child): a panic in a goroutine started by a handler kills
+// the child, the parent records the case in flight and continues with a new child.
+// Output: one JSON summary on the last line of stdout.
 package main
 
 import (
+	"bufio"
+	"bytes"
+	"crypto/sha256"
 	"encoding/json"
+	"flag"
 	"fmt"
-
-	"github.com/my-cloud/ruthenium/validatornode/domain/ledger"
-	"ruverif/internal/node"
+	"io"
+	"math/rand"
+	"os"
+	"os/exec"
+	"sort"
+	"strings"
+	"time"
 )
 
+type summary struct {
+	Seed              int64                     `json:"seed"`
+	Prop              string                    `json:"prop"`
+	Modes             []string                  `json:"modes"`
+	Evaluations       int                       `json:"evaluations"`
+	DistinctNontriv   int                       `json:"distinct_nontrivial"`
+	Rule              string                    `json:"rule"`
+	Samples           []string                  `json:"samples"`
+	Hist              map[string]map[string]int `json:"hist"`
+	Matrix            map[string]map[string]int `json:"matrix"`
+	Compared          int                       `json:"model_answers_compared"`
+	ParamChecks       int                       `json:"param_hypothesis_checks"`
+	ChildRestarts     int                       `json:"child_restarts"`
+	Observations      map[string]int            `json:"observations"`
+	Findings          []map[string]string       `json:"findings"`
+	Failures          []failure                 `json:"failures"`
+	Fatal             string                    `json:"fatal,omitempty"`
+	WallSeconds       float64                   `json:"wall_s"`
+}
+
+const rule = "fault: every position (first/last element of arrays) of every schema × fault kind, executed on the real code and on the model; " +
+	"mutate: random byte mutations of valid messages; fidelity: generated extreme values × 4 spellings; tcp: chain size × starting height. " +
+	"A case is non-trivial when it is not the unmodified base message and both sides were executed and compared; distinct = different " +
+	"(schema, position, fault or mutated-bytes digest, outcome, canonical re-encoding / calls)"
+
+var sum = &summary{Hist: map[string]map[string]int{}, Matrix: map[string]map[string]int{}, Observations: map[string]int{}, Failures: []failure{}, Findings: []map[string]string{}, Samples: []string{}}
+var keys = map[string]bool{}
+
+func bump(m map[string]map[string]int, a, b string) {
+	if m[a] == nil {
+		m[a] = map[string]int{}
+	}
+	m[a][b]++
+}
+
+// ---------------------------------------------------------------- child
+
+func childLoop(d *driver) {
+	in := bufio.NewReaderSize(os.Stdin, 1<<22)
+	out := bufio.NewWriter(os.Stdout)
+	for {
+		line, err := in.ReadBytes('\n')
+		if len(bytes.TrimSpace(line)) > 0 {
+			var c caseSpec
+			var r *caseResult
+			if jerr := json.Unmarshal(line, &c); jerr != nil {
+				r = &caseResult{Note: "bad case: " + jerr.Error()}
+			} else {
+				r = runCase(&c, d)
+			}
+			b, _ := json.Marshal(r)
+			out.Write(b)
+			out.WriteByte('\n')
+			out.Flush()
+		}
+		if err != nil {
+			return
+		}
+	}
+}
+
+func runCase(c *caseSpec, d *driver) *caseResult {
+	switch c.Kind {
+	case "dec":
+		return runDec(c, d)
+	case "handler":
+		return runHandler(c, d)
+	case "access":
+		return runAccess(c, d)
+	}
+	return &caseResult{Note: "unknown kind " + c.Kind}
+}
+
+type child struct {
+	cmd    *exec.Cmd
+	in     io.WriteCloser
+	out    *bufio.Reader
+	stderr *bytes.Buffer
+}
+
+func startChild(driverPath string) (*child, error) {
+	cmd := exec.Command(os.Args[0], "--mode", "child", "--driver", driverPath, "--prop", propId)
+	in, err := cmd.StdinPipe()
+	if err != nil {
+		return nil, err
+	}
+	out, err := cmd.StdoutPipe()
+	if err != nil {
+		return nil, err
+	}
+	se := &bytes.Buffer{}
+	cmd.Stderr = se
+	if err := cmd.Start(); err != nil {
+		return nil, err
+	}
+	return &child{cmd, in, bufio.NewReaderSize(out, 1<<22), se}, nil
+}
+
+func (c *child) stop() {
+	if c == nil {
+		return
+	}
+	_ = c.in.Close()
+	_ = c.cmd.Wait()
+}
+
+type pool struct {
+	driverPath string
+	c          *child
+}
+
+// run executes one case in the child; a dead child is a failure of that case.
+func (p *pool) run(c *caseSpec) *caseResult {
+	for attempt := 0; ; attempt++ {
+		if p.c == nil {
+			ch, err := startChild(p.driverPath)
+			if err != nil {
+				return &caseResult{Note: "cannot start child: " + err.Error()}
+			}
+			p.c = ch
+		}
+		b, _ := json.Marshal(c)
+		_, werr := p.c.in.Write(append(b, '\n'))
+		var line []byte
+		var rerr error
+		if werr == nil {
+			done := make(chan struct{})
+			go func() {
+				line, rerr = p.c.out.ReadBytes('\n')
+				close(done)
+			}()
+			select {
+			case <-done:
+			case <-time.After(60 * time.Second):
+				_ = p.c.cmd.Process.Kill()
+				<-done
+				rerr = fmt.Errorf("no answer within 60 s")
+			}
+		}
+		if werr == nil && rerr == nil {
+			var r caseResult
+			if err := json.Unmarshal(line, &r); err == nil {
+				return &r
+			}
+			rerr = fmt.Errorf("unreadable result %q", clip(string(line)))
+		}
+		// the child died (a panic outside recover's reach) or hung
+		_ = p.c.in.Close()
+		_ = p.c.cmd.Wait()
+		stack := p.c.stderr.String()
+		p.c = nil
+		sum.ChildRestarts++
+		r := &caseResult{Impl: "panic", Model: "?"}
+		if len(stack) > 6000 {
+			stack = stack[:6000]
+		}
+		what := "process-died"
+		if rerr != nil && strings.Contains(rerr.Error(), "within 60 s") {
+			what = "hung"
+		}
+		c.fail(r, what, fmt.Sprintf("the process executing the case died or hung (%v %v):\n%s", werr, rerr, stack), unhexMsg(c.MsgHex))
+		return r
+	}
+}
+
+// ---------------------------------------------------------------- case enumeration
+
+type schemaDef struct {
+	kind   string // dec | handler | access
+	schema string // handler/access schema, or wire type for dec
+	fix    string // fix-up schema for dec cases
+	base   *jv
+}
+
+func mustJV(b []byte) *jv {
+	v, err := parseJV(b)
+	if err != nil {
+		panic(fmt.Sprintf("base message does not parse: %v: %s", err, b))
+	}
+	return v
+}
+
+func baseDefs(w *world) ([]schemaDef, error) {
+	var defs []schemaDef
+	_, tx, err := w.baseTx(w.last())
+	if err != nil {
+		return nil, err
+	}
+	up, err := w.baseMessage("update-ext")
+	if err != nil {
+		return nil, err
+	}
+	full, err := w.baseMessage("update-full")
+	if err != nil {
+		return nil, err
+	}
+	req, _ := w.baseMessage("txreq")
+	reqReward, _ := w.baseMessage("txreq-reward")
+	prog, _ := w.baseMessage("progress")
+	utxos, _ := json.Marshal(w.n.Utxos.Utxos(w.w0.Address))
+	newBlock := up.v.arr[len(up.v.arr)-1]
+	// typed decoders
+	defs = append(defs,
+		schemaDef{"dec", "output", "", tx.get("outputs").arr[0]},
+		schemaDef{"dec", "input", "", tx.get("inputs").arr[0]},
+		schemaDef{"dec", "inputinfo", "", jobj().set("output_index", jnum("1")).set("transaction_id", jstr(w.splitId))},
+		schemaDef{"dec", "utxo", "", prog.v},
+		schemaDef{"dec", "transaction", "post", tx},
+		schemaDef{"dec", "transaction", "post", reqReward.v.get("Transaction")},
+		schemaDef{"dec", "request", "txreq", req.v},
+		schemaDef{"dec", "block", "block", newBlock},
+		schemaDef{"dec", "blocks", "update-ext", up.v},
+		schemaDef{"dec", "transactions", "transactions", newBlock.get("transactions")},
+		schemaDef{"dec", "utxos", "", mustJV(utxos)},
+		schemaDef{"dec", "targets", "", jarr(jstr("127.0.0.1:7003"), jstr("127.0.0.1:7004"))},
+		schemaDef{"dec", "height", "", jnum("1")},
+		schemaDef{"dec", "timestamp", "", jint(T0)},
+		schemaDef{"dec", "address", "", jstr(w.w0.Address)},
+	)
+	// handlers on a booted validator
+	for _, s := range []string{"txreq", "txreq-reward", "blocksreq", "utxosreq", "targets"} {
+		b, err := w.baseMessage(s)
+		if err != nil {
+			return nil, err
+		}
+		defs = append(defs, schemaDef{"handler", s, s, b.v})
+	}
+	defs = append(defs, schemaDef{"handler", "update-ext", "update-ext", up.v}, schemaDef{"handler", "update-full", "update-full", full.v})
+	// access node
+	defs = append(defs, schemaDef{"access", "post", "post", tx}, schemaDef{"access", "progress", "progress", prog.v})
+	return defs, nil
+}
+
+func parentKind(root *jv, p path) byte {
+	if len(p) == 0 {
+		return 0
+	}
+	par := root.at(p[:len(p)-1])
+	if par == nil {
+		return 0
+	}
+	return par.k
+}
+
+func fixSchemaTxPaths(fix string, root *jv) string { return fix }
+
+// faultCases enumerates the matrix. level: 0 quick (handler-level: the five fault kinds of the property + key faults on
+// a thinned set), 1 thorough (everything everywhere).
+func faultCases(w *world, thorough bool) ([]caseSpec, error) {
+	defs, err := baseDefs(w)
+	if err != nil {
+		return nil, err
+	}
+	var res []caseSpec
+	for _, d := range defs {
+		// the unmodified base message first
+		base := caseSpec{Kind: d.kind, Schema: d.schema, Mode: "whole", Pos: "$", Variant: "base"}
+		if d.kind == "dec" {
+			base.MsgHex = hx(d.base.bytes())
+		}
+		res = append(res, base)
+		for _, p := range d.base.positions() {
+			x := d.base.at(p)
+			faults := faultsFor(x, len(p) == 0, parentKind(d.base, p))
+			for _, f := range faults {
+				if d.kind != "dec" && !thorough && !quickFault(d.schema, p, f) {
+					continue
+				}
+				c := caseSpec{Kind: d.kind, Schema: d.schema, Mode: "whole", Path: toPsteps(p), Pos: p.schema(), Fault: f}
+				if d.kind == "dec" {
+					v, whole, ok := applyFault(d.base, p, f)
+					if !ok {
+						continue
+					}
+					if v == nil {
+						c.MsgHex = hx(whole)
+					} else {
+						if d.fix != "" {
+							fixUpDec(d.fix, v, p, f)
+						}
+						c.MsgHex = hx(v.bytes())
+					}
+				} else if _, _, ok := applyFault(d.base, p, f); !ok {
+					continue
+				}
+				res = append(res, c)
+				if d.kind == "dec" && (d.schema == "transaction" || d.schema == "utxo") && len(p) == 0 {
+					// the access node reads these two with json.Decoder: also in stream mode
+					c2 := c
+					c2.Mode = "first"
+					res = append(res, c2)
+				}
+			}
+		}
+	}
+	// access node: query strings and faulted answers of the trusted validator
+	for _, q := range []string{"", "?address=", "?address=" + w.w0.Address, "?address=" + w.w0.Address + "&value=1000&consolidation=false",
+		"?address=" + w.w0.Address + "&value=-1&consolidation=true", "?address=" + w.w0.Address + "&value=99999999999999999999&consolidation=false",
+		"?address=" + w.w0.Address + "&value=1&consolidation=maybe", "?address=%00%ff&value=1&consolidation=1", "?address=x&value=9223372036854775807&consolidation=0"} {
+		res = append(res, caseSpec{Kind: "access", Schema: "info", Pos: "query", Fault: "query", Variant: q},
+			caseSpec{Kind: "access", Schema: "amount", Pos: "query", Fault: "query", Variant: q})
+	}
+	res = append(res, caseSpec{Kind: "access", Schema: "transactions", Pos: "query", Fault: "query", Variant: ""})
+	for _, a := range []string{"utxos=[null]", "utxos=null", "utxos=[]", "utxos=[{}]", "utxos={}", "utxos=[null,{\"value\":1}]", "blocks=[null]", "blocks=null", "blocks=[]",
+		"blocks=[{\"transactions\":[null]}]", "blocks=[{}]", "transactions=[null]", "transactions=null", "transactions={}", "transactions=[]"} {
+		res = append(res, caseSpec{Kind: "access", Schema: "progress-ans", Pos: "validator-answer", Fault: "trusted-answer", Variant: a})
+		if strings.HasPrefix(a, "utxos=") {
+			res = append(res, caseSpec{Kind: "access", Schema: "wallet-ans", Pos: "validator-answer/amount", Fault: "trusted-answer", Variant: a},
+				caseSpec{Kind: "access", Schema: "wallet-ans", Pos: "validator-answer/info", Fault: "trusted-answer", Variant: a})
+		}
+	}
+	return res, nil
+}
+
+// quickFault thins the handler-level matrix of the quick tier: the five fault kinds of the property at every
+// position; the key faults and the long list of boundary numbers only where they matter.
+func quickFault(schema string, p path, f string) bool {
+	cl := faultClass(f)
+	deep := len(p) > 3
+	switch cl {
+	case "null", "absent", "empty":
+		return true
+	case "wrongtype":
+		return !deep || f == "wrongtype:number" || f == "wrongtype:string"
+	case "boundary":
+		switch f {
+		case "boundary:-1", "boundary:65536", "boundary:9223372036854775808", "boundary:18446744073709551616", "boundary:1e400", "boundary:1.5":
+			return true
+		}
+		return !deep && f == "boundary:-0"
+	case "dupkey":
+		return !deep || f == "dupkey:null-after"
+	case "key":
+		return !deep
+	case "elem", "unknown-key":
+		return true
+	}
+	return true
+}
+
+// fixUpDec: as fixUp, for the wire types that are not complete messages of a handler schema.
+func fixUpDec(fix string, root *jv, fault path, f string) {
+	switch fix {
+	case "block":
+		wrapped := jarr(root)
+		fixUp("update-ext", wrapped, append(path{{idx: 0}}, fault...), f)
+	case "transactions":
+		wrapped := jarr(jobj().set("transactions", root))
+		fixUp("update-ext", wrapped, append(path{{idx: 0}, {key: "transactions", idx: -1}}, fault...), f)
+	default:
+		fixUp(fix, root, fault, f)
+	}
+}
+
+var decTypesForMutation = []string{"output", "input", "utxo", "transaction", "request", "block", "blocks", "transactions", "utxos", "targets", "height", "address", "timestamp"}
+
+func mutationCases(w *world, rng *rand.Rand, n int) ([]caseSpec, error) {
+	defs, err := baseDefs(w)
+	if err != nil {
+		return nil, err
+	}
+	var decs, handlers []schemaDef
+	for _, d := range defs {
+		switch d.kind {
+		case "dec":
+			decs = append(decs, d)
+		case "handler", "access":
+			handlers = append(handlers, d)
+		}
+	}
+	var res []caseSpec
+	for i := 0; i < n; i++ {
+		if i%8 == 7 {
+			d := handlers[rng.Intn(len(handlers))]
+			res = append(res, caseSpec{Kind: d.kind, Schema: d.schema, Pos: "bytes", MutSeed: 1 + rng.Int63n(1<<40)})
+			continue
+		}
+		d := decs[rng.Intn(len(decs))]
+		msg := mutateBytes(rng, d.base.bytes())
+		mode := "whole"
+		if (d.schema == "transaction" || d.schema == "utxo") && rng.Intn(3) == 0 {
+			mode = "first"
+		}
+		res = append(res, caseSpec{Kind: "dec", Schema: d.schema, Mode: mode, Pos: "bytes", MutSeed: int64(i + 1), MsgHex: hx(msg)})
+	}
+	return res, nil
+}
+
+// ---------------------------------------------------------------- accounting
+
+func account(c *caseSpec, r *caseResult, mode string) {
+	sum.Evaluations++
+	sum.Compared += r.Compared
+	fc := faultClass(c.Fault)
+	if c.Fault == "" {
+		fc = "valid"
+	}
+	if c.MutSeed != 0 {
+		fc = "mutation"
+	}
+	bump(sum.Hist, mode+":"+c.Kind+":"+c.Schema, fc+"→"+r.Impl)
+	if mode == "fault" {
+		bump(sum.Matrix, c.Kind+":"+c.Schema+" "+c.Pos, fc+"→"+r.Impl)
+	}
+	for _, o := range r.Obs {
+		if len(o) > 300 {
+			o = o[:300]
+		}
+		sum.Observations[o]++
+	}
+	if r.Compared > 0 && (c.Fault != "" || c.MutSeed != 0 || c.Expect != "") && r.Impl != "skip" {
+		k := r.Key
+		if c.MutSeed != 0 || k == "" {
+			h := sha256.Sum256([]byte(r.Sent))
+			k = fmt.Sprintf("%s|%x|%s", c.label(), h[:8], r.Impl)
+		}
+		keys[c.label()+"|"+k] = true
+	}
+	seen := map[string]bool{}
+	for _, f := range sum.Failures {
+		seen[f.Signature] = true
+	}
+	for _, f := range r.Failures {
+		if !seen[f.Signature] {
+			seen[f.Signature] = true
+			sum.Failures = append(sum.Failures, f)
+		}
+	}
+	if len(sum.Samples) < 6 && c.Fault != "" && r.Impl != "skip" && sum.Evaluations%37 == 3 {
+		sum.Samples = append(sum.Samples, fmt.Sprintf("%s %s: %s → impl %s, model %s", c.Kind, c.label(), clip(printable(unhexMsg(r.Sent))), r.Impl, r.Model))
+	}
+}
+
+func finish(t0 time.Time) {
+	sum.DistinctNontriv = len(keys)
+	sum.ParamChecks += paramChecks
+	sum.WallSeconds = time.Since(t0).Seconds()
+	sum.Rule = rule
+	if len(sum.Samples) == 0 {
+		sum.Samples = []string{"(no case executed)"}
+	}
+	for _, v := range paramViolations {
+		sum.Failures = append(sum.Failures, failure{Kind: "tie", Signature: propId + "/crypto-parameter-hypothesis", Detail: v, Replay: map[string]interface{}{"tool": "ruwire", "detail": v}, FoundInput: true})
+		break
+	}
+	sort.Slice(sum.Failures, func(i, j int) bool { return sum.Failures[i].Signature < sum.Failures[j].Signature })
+	b, _ := json.Marshal(sum)
+	fmt.Println(string(b))
+}
+
 func main() {
-	w0, w1 := node.NewWallet(0), node.NewWallet(1)
-	r := node.RewardRaw(w0.Address, false, 100, 7)
-	t := &node.RawTx{Timestamp: 100, Inputs: []node.RawInput{{0, r.Id, w1.PubHex, w1.Sign(0, r.Id)}}, Outputs: []node.RawOutput{{w1.Address, false, 3}}}
-	t.Id, _ = t.ComputeId()
-	rb, _ := json.Marshal(r)
-	tb, _ := json.Marshal(t)
-	msg := fmt.Sprintf(`{"previous_hash":null,"timestamp":5,"transactions":[%s],"transactions":[%s]}`, rb, tb)
-	var b *ledger.Block
-	err := json.Unmarshal([]byte(msg), &b)
-	fmt.Println(err)
-	for _, x := range b.Transactions() {
-		fmt.Println(x.Id() == t.Id, x.HasReward(), x.RewardRecipientAddress(), x.RewardValue(), len(x.Inputs()))
+	seed := flag.Int64("seed", 20260929, "PRNG seed")
+	mode := flag.String("mode", "fault,mutate", "comma separated: fault, mutate, fidelity, tcp, witness (child: internal)")
+	driverPath := flag.String("driver", "/verif/lean/codec/.lake/build/bin/codecdriver", "Lean model driver")
+	replay := flag.String("replay", "", "replay file (or the JSON of one failure's replay payload)")
+	prop := flag.String("prop", "C14", "property id used in signatures")
+	thorough := flag.Bool("thorough", false, "full matrix at handler level, larger streams")
+	count := flag.Int("count", 0, "size of the random streams (default by tier)")
+	page := flag.Int("page", 0, "blocks per page for the tcp mode (default 6, thorough 100)")
+	flag.Parse()
+	propId = *prop
+	t0 := time.Now()
+
+	if *mode == "child" {
+		d, err := startDriver(*driverPath)
+		if err != nil {
+			fmt.Fprintln(os.Stderr, "driver:", err)
+			os.Exit(3)
+		}
+		childLoop(d)
+		d.close()
+		return
 	}
-	enc, _ := json.Marshal(b)
-	var b2 *ledger.Block
-	_ = json.Unmarshal(enc, &b2)
-	for _, x := range b2.Transactions() {
-		fmt.Println(x.Id() == t.Id, x.HasReward())
+
+	sum.Seed, sum.Prop = *seed, propId
+	p := &pool{driverPath: *driverPath}
+	defer func() { p.c.stop() }()
+
+	if *replay != "" {
+		sum.Modes = []string{"replay"}
+		b, err := os.ReadFile(*replay)
+		if err != nil {
+			b = []byte(*replay)
+		}
+		var body struct {
+			Replay struct {
+				Case    *caseSpec `json:"case"`
+				Tcp     bool      `json:"tcp"`
+				Witness string    `json:"witness"`
+			} `json:"replay"`
+		}
+		if err := json.Unmarshal(b, &body); err != nil {
+			sum.Fatal = "unreadable replay: " + err.Error()
+			finish(t0)
+			return
+		}
+		switch {
+		case body.Replay.Case != nil:
+			r := p.run(body.Replay.Case)
+			account(body.Replay.Case, r, "replay")
+		case body.Replay.Tcp:
+			d, err := startDriver(*driverPath)
+			if err == nil {
+				rep := &tcpReport{}
+				runTcp(d, 6, rep)
+				sum.Failures = append(sum.Failures, rep.Failures...)
+				sum.Evaluations += rep.Evaluations
+				d.close()
+			}
+		case body.Replay.Witness != "":
+			d, err := startDriver(*driverPath)
+			if err == nil {
+				runWitnesses(d, body.Replay.Witness)
+				d.close()
+			}
+		default:
+			sum.Fatal = "replay payload has no case"
+		}
+		finish(t0)
+		return
 	}
-	// request
-	msg2 := fmt.Sprintf(`{"Transaction":%s,"transaction":%s}`, rb, tb)
-	var q *ledger.TransactionRequest
-	fmt.Println(json.Unmarshal([]byte(msg2), &q), q.Transaction().HasReward(), q.Transaction().Id() == t.Id)
-	// []string stale
-	msg3 := `{"added_registered_addresses":["a","b"],"added_registered_addresses":[null],"added_registered_addresses":[null,null]}`
-	var b3 *ledger.Block
-	fmt.Println(json.Unmarshal([]byte(msg3), &b3), fmt.Sprintf("%q", b3.AddedRegisteredAddresses()))
-	// long sharp s
-	var o *ledger.Output
-	fmt.Println(json.Unmarshal([]byte(`{"addreſſ":"x","IS_YIELDING":true,"value":1,"value":null}`), &o), o.Address(), o.IsYielding(), o.InitialValue())
-	var arr *ledger.Block
-	fmt.Println(json.Unmarshal([]byte(`{"previous_hash":[1,null,3,4,5,6,7,8,9,10,11,12,13,14,15,16,17,18,19,20,21,22,23,24,25,26,27,28,29,30,31,32,33,"x"]}`), &arr))
-	if arr != nil { fmt.Println(arr.PreviousHash()) }
+
+	rng := rand.New(rand.NewSource(*seed))
+	w, err := boot()
+	if err != nil {
+		sum.Fatal = "boot: " + err.Error()
+		finish(t0)
+		return
+	}
+	for _, m := range strings.Split(*mode, ",") {
+		m = strings.TrimSpace(m)
+		if m == "" {
+			continue
+		}
+		sum.Modes = append(sum.Modes, m)
+		switch m {
+		case "fault":
+			cases, err := faultCases(w, *thorough)
+			if err != nil {
+				sum.Fatal = "fault cases: " + err.Error()
+				break
+			}
+			for i := range cases {
+				account(&cases[i], p.run(&cases[i]), m)
+			}
+		case "mutate":
+			n := *count
+			if n == 0 {
+				n = 3000
+				if *thorough {
+					n = 40000
+				}
+			}
+			cases, err := mutationCases(w, rng, n)
+			if err != nil {
+				sum.Fatal = "mutation cases: " + err.Error()
+				break
+			}
+			for i := range cases {
+				account(&cases[i], p.run(&cases[i]), m)
+			}
+		case "fidelity":
+			n := *count
+			if n == 0 {
+				n = 25
+				if *thorough {
+					n = 400
+				}
+			}
+			cases := fidelityCases(rng, n)
+			for i := range cases {
+				account(&cases[i], p.run(&cases[i]), m)
+			}
+		case "tcp":
+			d, err := startDriver(*driverPath)
+			if err != nil {
+				sum.Fatal = "driver: " + err.Error()
+				break
+			}
+			pg := *page
+			if pg == 0 {
+				pg = 6
+				if *thorough {
+					pg = 100
+				}
+			}
+			rep := &tcpReport{}
+			runTcp(d, pg, rep)
+			d.close()
+			sum.Evaluations += rep.Evaluations
+			sum.Compared += d.asked
+			for k, v := range rep.Hist {
+				bump(sum.Hist, "tcp", k)
+				sum.Hist["tcp"][k] += v - 1
+			}
+			for k := range rep.Keys {
+				keys["tcp|"+k] = true
+			}
+			sum.Samples = append(sum.Samples, rep.Samples...)
+			sum.Failures = append(sum.Failures, rep.Failures...)
+		case "witness":
+			d, err := startDriver(*driverPath)
+			if err != nil {
+				sum.Fatal = "driver: " + err.Error()
+				break
+			}
+			runWitnesses(d, "")
+			sum.Compared += d.asked
+			d.close()
+		default:
+			sum.Fatal = "unknown mode " + m
+		}
+	}
+	finish(t0)
 }
